@@ -13,7 +13,7 @@ from ..strategies import bfloat, block_edge_sizes, harvested_edge_sizes, near, u
 
 PROPERTY_ID = "C12"
 LEVEL = "exploration"
-SHARDS = {"quick": 4, "thorough": 16}
+SHARDS = {"quick": 12, "thorough": 16}
 RULE = (
     "Hypothesis draws spectra (mono-energetic with log-energy in [6,12]; power law with index in [0,4] boundary-heavy: "
     "exactly 1, 1 +- 2^-52, 1 +- 1e-12 .. 1 +- 1e-3, 0, 2, 4; bounds 6 <= lower < upper <= 12 incl. ulp-wide ranges and the "
@@ -276,4 +276,4 @@ SUBCHECKS = [
 # the same oracles in interpreters started with -O / -OO (see core.env_variant)
 from ..core import env_variant  # noqa: E402
 
-SUBCHECKS.append(env_variant(__name__, next(sc for sc in SUBCHECKS if sc.name == "power_law")))
+SUBCHECKS.append(env_variant(__name__, next(sc for sc in SUBCHECKS if sc.name == "power_law"), quick=10, thorough=200))
